@@ -574,6 +574,17 @@ fn do_op(sys: &mut Sys, rng: &mut Rng, extremes: bool, script: Option<(u64, u64)
             forced = Some(next_c);
         }
     }
+    // a cooperative close has a chance only when both sides hold the same HTLC-free balances
+    if script.is_none() && forced.is_none() {
+        if let Some(e) = est.as_ref() {
+            if let (Some(h), Some(c)) = (e.current_holder_commit_info.as_ref(), e.current_counterparty_commit_info.as_ref()) {
+                let (hi, ci) = (content_id_of(h, true), content_id_of(c, false));
+                if hi == ci && n_htlcs(hi) == 0 && rng.chance(1, 4) {
+                    choice = 49;
+                }
+            }
+        }
+    }
     let near = |rng: &mut Rng, c: u64| -> u64 {
         match forced {
             Some(f) => f,
@@ -666,6 +677,44 @@ fn do_op(sys: &mut Sys, rng: &mut Rng, extremes: bool, script: Option<(u64, u64)
             (format!("GetSecretOrNone {}", n), json!(["get_secret_or_none", n]), r)
         }
         // ---- holder signing (closes the channel)
+        // ---- cooperative close (either entry point); the validation verdict is the model's input
+        49 if script.is_none() => {
+            use lightning_signer::lightning::ln::chan_utils::ClosingTransaction;
+            use lightning_signer::wallet::Wallet;
+            let path = DerivationPath::from(vec![lightning_signer::bitcoin::bip32::ChildNumber::from_normal_idx(7).unwrap()]);
+            let hs = node.get_native_address(&path).expect("address").script_pubkey();
+            let cs = ScriptBuf::from(hex::decode("0014aabbccddeeff00112233445566778899aabbccdd").unwrap());
+            // the holder's balance of its current commitment, the rest minus a fee to the counterparty
+            let to_h = est
+                .as_ref()
+                .and_then(|e| e.current_holder_commit_info.as_ref())
+                .map(|i| i.to_broadcaster_value_sat)
+                .unwrap_or(VALUE - 1000);
+            let fee = *rng.pick(&[500u64, 1000, 2000, 200_000]);
+            let to_h = if rng.chance(1, 6) { to_h.saturating_sub(5_000) } else { to_h };
+            let to_c = VALUE.saturating_sub(to_h).saturating_sub(fee);
+            let phase1 = rng.chance(1, 2);
+            let funding = make_test_channel_setup().funding_outpoint;
+            let r = guarded(|| {
+                match node.with_channel(&cid, |c| {
+                    if phase1 {
+                        let ct = ClosingTransaction::new(to_h, to_c, hs.clone(), cs.clone(), c.setup.funding_outpoint);
+                        let tx = ct.trust().built_transaction().clone();
+                        let opaths: Vec<DerivationPath> =
+                            tx.output.iter().map(|o| if o.script_pubkey == hs { path.clone() } else { DerivationPath::master() }).collect();
+                        c.sign_mutual_close_tx(&tx, &opaths).map(|_| ())
+                    } else {
+                        c.sign_mutual_close_tx_phase2(to_h, to_c, &Some(hs.clone()), &Some(cs.clone()), &path).map(|_| ())
+                    }
+                }) {
+                    Ok(()) => Obs::ok(),
+                    Err(_) => Obs::refused(),
+                }
+            });
+            let _ = funding;
+            let ok = r.st == "Ok";
+            (format!("MutualClose {}", coq_bool(ok)), json!(["mutual_close", if phase1 { 1 } else { 2 }, to_h, to_c, ok]), r)
+        }
         47..=49 => {
             let n = near(rng, next.saturating_sub(1));
             let cur = est.as_ref().and_then(|e| e.current_holder_commit_info.as_ref()).map(|i| content_id_of(i, true));
